@@ -39,7 +39,7 @@ func init() {
 		ID:    "C05",
 		Title: "ORDER BY sorts, LIMIT/OFFSET return the exact window and never fail",
 		Rule: "rapid draws a table (0-10 rows, ties frequent), 0-3 sort keys among the output columns with random directions (a single key may be " +
-			"nullable), an optional WHERE, an optional DISTINCT and an optional LIMIT n [OFFSET m] in all three spellings with n,m in 0..len+3; oracles: the unordered " +
+			"nullable), an optional WHERE, an optional DISTINCT, numeric columns also as native Go types (one key column sometimes as int64 / int / uint64 / uint beyond 2^53) and an optional LIMIT n [OFFSET m] in all three spellings with n,m in 0..len+3; oracles: the unordered " +
 			"result equals the reference filter; the ordered result is a permutation of it whose adjacent pairs respect the key list " +
 			"lexicographically with NULL keys last (single key); the limited result has length min(n, max(0,|S|-m)), its key tuples equal those of " +
 			"S[m:m+n], it is a sub-multiset of S, and without ORDER BY it equals S[m:m+n] exactly; never an error. Non-trivial: >=2 rows not already " +
